@@ -120,6 +120,13 @@ impl TypeAggregator {
                 // New version is higher: remove old entry, insert new name
                 let merged_kind = self.imports.shift_remove(&existing_name).unwrap();
                 self.imports.insert(name.to_string(), merged_kind);
+                // The merged interface is now known by the higher version; the
+                // encoder names the import of a used interface by this id
+                if let ItemKind::Instance(id) = merged_kind {
+                    if self.types[id].id.as_deref() == Some(existing_name.as_str()) {
+                        self.types[id].id = Some(name.to_string());
+                    }
+                }
                 // Update any existing redirects that pointed to the old name
                 for redirect in self.name_redirects.values_mut() {
                     if *redirect == existing_name {
